@@ -58,7 +58,9 @@ def make_unit(max_attempts_idx: int = 5, base_exc: bool = False, slots: int = 4)
             mode = MODES[sym.choice("mode", len(MODES))]
             arg = sym.int("arg", -100, 100)
             dur = sym.int("dur", 0, 3) if mode != "inline" else 0
-            outcomes = [sym.choice("outcome%d" % i, n_out) for i in range(slots)]
+
+            def outcome(k: int) -> int:  # lazily: only attempts that happen get a variable
+                return sym.choice("outcome%d" % min(k, slots - 1), n_out)
 
             loop = VLoop(max_iterations=500)
             log: List[Tuple[str, Any, Any, Any]] = []  # (what, kwargs, t, extra)
@@ -67,7 +69,7 @@ def make_unit(max_attempts_idx: int = 5, base_exc: bool = False, slots: int = 4)
             def body(kwargs: Dict[str, Any]) -> Any:
                 k = sum(1 for x in log if x[0] == "end")
                 log.append(("end", dict(kwargs), loop.time(), k))
-                o = outcomes[min(k, slots - 1)]
+                o = outcome(k)
                 if o == 1:
                     e: BaseException = NodeErr1("n", k)
                 elif o == 2:
@@ -129,7 +131,7 @@ def make_unit(max_attempts_idx: int = 5, base_exc: bool = False, slots: int = 4)
             exp_calls = 0
             exp: Tuple[str, Any]
             while True:
-                o = outcomes[min(exp_calls, slots - 1)]
+                o = outcome(exp_calls)
                 exp_calls += 1
                 if o == 0:
                     exp = ("val", exp_calls - 1)
@@ -180,7 +182,7 @@ def make_unit(max_attempts_idx: int = 5, base_exc: bool = False, slots: int = 4)
                                [x[2] for x in log]],
                     "goals": goals,
                     "summary": {"attempts": att, "delay": delay, "exceptions": excs, "use_default": use_default,
-                                "mode": mode, "outcomes": outcomes[:exp_calls], "expected": [exp[0], exp_calls]}}
+                                "mode": mode, "outcomes": [outcome(i) for i in range(exp_calls)], "expected": [exp[0], exp_calls]}}
             return (label or "ok"), info
 
         return h
